@@ -264,7 +264,7 @@ pub fn run_c04(ctx: &Ctx) -> i32 {
          levels x both same-change settings. Non-trivial: the terms are not all equal and the by-line \
          diff has at least one differing hunk. Distinct: by (terms, options).",
     );
-    let n = ctx.tier().pick(120_000, 6_000_000);
+    let n = ctx.tier().pick(400_000, 6_000_000);
     par_cases(ctx, n, threads(), |i, cs, rng| {
         let pool = line_pool(rng, rng.clone().range(3, 8), false);
         let eol = *rng.pick(&[Eol::Lf, Eol::Lf, Eol::Lf, Eol::Crlf, Eol::Mixed]);
@@ -419,7 +419,7 @@ pub fn run_c05(ctx: &Ctx) -> i32 {
          merge is an actual conflict (materialization emits markers). Distinct: by (terms, style, \
          labels, length, options).",
     );
-    let n = ctx.tier().pick(120_000, 6_000_000);
+    let n = ctx.tier().pick(400_000, 6_000_000);
     par_cases(ctx, n, threads(), |i, cs, rng| {
         let pool = line_pool(rng, rng.clone().range(3, 8), true);
         let eol = *rng.pick(&[Eol::Lf, Eol::Lf, Eol::Crlf, Eol::Crlf, Eol::Mixed]);
